@@ -221,6 +221,11 @@ def fdOne (F : B → B) (e : Int) : Option B :=
   let sc := BigF.one + BigF.abs d1
   if BigF.le (BigF.abs (d1 - d2)) (hStep (-50) * sc) then some d1 else none
 
+/-- plain central difference with step `2^e` -/
+def fdPlain (F : B → B) (e : Int) : B :=
+  let h := hStep e
+  BigF.div (F h - F (BigF.neg h)) (two * h)
+
 def fdLeaf (eps : B) (p : Prog) (kinds : List String) (env : List (List B)) (c : List B) (outkind : String)
     (leaf : Nat) : Except String (List B) := do
   let kind := kinds.getD leaf "V"
@@ -228,8 +233,15 @@ def fdLeaf (eps : B) (p : Prog) (kinds : List String) (env : List (List B)) (c :
   let n := match grpOf kind with | .ok g => g.adim | .error _ => x.length
   let y0 := evalR eps env p
   let F := fun (j : Nat) (t : B) => pairing eps outkind c y0 (evalR eps (setNth env leaf (pertLeaf eps kind x j t)) p)
+  -- an independent computation of the same number: the model's reverse sweep.  Where the two agree to 2⁻³⁰ the
+  -- difference quotient is accepted as it is; otherwise it must pass the Richardson test at some step size.
+  let bp := grad x.length leaf (backprop dJpure eps env p c)
   let mut out : List B := []
   for j in List.range n do
+    let d0 := fdPlain (F j) (-40)
+    if BigF.le (BigF.abs (d0 - AD.nth bp j)) (hStep (-30) * (BigF.one + BigF.abs d0)) then
+      out := out ++ [d0]
+    else
     match fdOne (F j) (-40) with
     | some d => out := out ++ [d]
     | none =>
